@@ -37,6 +37,10 @@ CLAIMED = {
         text="Lean theorems: for rule lists of any length in dependency order (explicit predicate DepOrdered, satisfiable: example) every rule holds after the rule pass (applyAll_holds / rules_hold_after_pass), and 'holds' is the assignment equation for species and parameter targets; rows written by the SSA and volume loops are the post-rule state from which the propensities are computed; fires_iff characterises the three schedules; a rule scheduled for T is silent at every other instant and runs at T; dt rules need a rule step and the SSA loop raises it only on arrival at a grid time; ODE rule = target + rate*dt; additive rule = sum of sources. Tie: Rule.py_execute_rule unit correspondence (all rule types/frequencies, volume and plain), trajectories with rules reproduced bit for bit in SSA/safe/volume/delay; oracle on implementation rows incl. deterministic and lineage single-cell runs (registration count, counter, schedule, ODE step).",
         note=NOTE_COMMON + "the lineage loop is tied by the row oracle here (and by the loop model of C19 when claimed); deterministic mode claims repeated rules only.",
         technique="Lean 4 proof (dependency-order induction + schedule lemmas) + bit-exact correspondence + row oracle", ref="DESIGN.md §4 C09"),
+    "C07": dict(
+        text="Lean theorems by kernel evaluation over the whole option lattice (128 combinations, lifted by lattice_complete): every combination yields a result, never an internal error or an abstract simulator (entry_total, entry_no_abstract_simulator); neither/both of Model and Interface is an explicit option error; every returnable result class stores the requested time points and the rows (entry_time_axis, result_rows_stored) - obligations regenerated from the constructors' source by a translator on every run; volume column iff a volume is in play; column list = species in index order ++ time ++ volume; dispatch table. Tie: the lattice x 5 models x 3 grids is enumerated completely on the real py_simulate_model and compared with the model outcome and with the property (rows, time axis, columns, first row).",
+        note=NOTE_COMMON + "the dispatch is a hand model (exhaustively compared); result constructors are translated by regex (harness/extract/result_fields.py); pandas trusted; with a pre-built interface the data frame columns are positions.",
+        technique="Lean 4 proof (decide +kernel over the complete finite lattice; translator-regenerated obligations) + exhaustive correspondence", ref="DESIGN.md §4 C07"),
 }
 PENDING = {}
 def main():
